@@ -922,6 +922,9 @@ func (self *LockResultCommandData) GetArrayValue() [][]byte {
 			index += 4
 			continue
 		}
+		if index+4+valueLen > len(self.Data) {
+			break
+		}
 		values = append(values, self.Data[index+4:index+4+valueLen])
 		index += valueLen + 4
 	}
@@ -940,6 +943,9 @@ func (self *LockResultCommandData) GetKVValue() map[string][]byte {
 			index += 4
 			continue
 		}
+		if index+4+keyLen+4 > len(self.Data) {
+			break
+		}
 		key := string(self.Data[index+4 : index+4+keyLen])
 		index += keyLen + 4
 
@@ -947,6 +953,9 @@ func (self *LockResultCommandData) GetKVValue() map[string][]byte {
 		if valueLen == 0 {
 			index += 4
 			continue
+		}
+		if index+4+valueLen > len(self.Data) {
+			break
 		}
 		values[key] = self.Data[index+4 : index+4+valueLen]
 		index += valueLen + 4
@@ -960,8 +969,11 @@ func (self *LockResultCommandData) GetDataProperties() []*LockCommandDataPropert
 	}
 	properties := make([]*LockCommandDataProperty, 0)
 	propertyLen, index := int(self.Data[6])|int(self.Data[7])<<8, 0
-	for index < propertyLen {
+	for index < propertyLen && index+11 <= len(self.Data) {
 		propertyCode, valueLen := self.Data[8+index], int(self.Data[9+index])|int(self.Data[10+index])<<8
+		if index+11+valueLen > len(self.Data) {
+			break
+		}
 		if valueLen > 0 {
 			properties = append(properties, NewLockCommandDataProperty(propertyCode, self.Data[11+index:11+index+valueLen]))
 		} else {
@@ -977,8 +989,11 @@ func (self *LockResultCommandData) GetDataProperty(code uint8) *LockCommandDataP
 		return nil
 	}
 	propertyLen, index := int(self.Data[6])|int(self.Data[7])<<8, 0
-	for index < propertyLen {
+	for index < propertyLen && index+11 <= len(self.Data) {
 		propertyCode, valueLen := self.Data[8+index], int(self.Data[9+index])|int(self.Data[10+index])<<8
+		if index+11+valueLen > len(self.Data) {
+			break
+		}
 		if code == propertyCode {
 			if valueLen > 0 {
 				return NewLockCommandDataProperty(code, self.Data[11+index:11+index+valueLen])
